@@ -420,7 +420,17 @@ class SetLike(TwoRuns):
 
     def setup(self, cx):
         S = super().setup(cx)
-        S.block_of = lambda it, j: it.seq_at(cx, j)
+
+        def block_of(it, j):
+            # the block appended in iteration j: the item itself when the loop runs over digests (sorted(...) in the real code), or the
+            # digest(s) of the raw item when a variant of the code loops over the container directly (then the order is the iteration order)
+            x = it.seq_at(cx, j)
+            if isinstance(x, Child):
+                return x.fam.digest(cx, x.j)
+            if isinstance(x, tuple) and len(x) == 2 and all(isinstance(c, Child) for c in x):
+                return bcat(x[0].fam.digest(cx, x[0].j), x[1].fam.digest(cx, x[1].j))  # closed form: evaluated under a quantifier
+            return x
+        S.block_of = block_of
         return S
 
     def replay(self, ob):
@@ -430,7 +440,7 @@ class SetLike(TwoRuns):
 
     def make_loops(self, S):
         inv = block_invariant(S, lambda it: 40 if self.kind in ('dict', 'frozendict') else 20)
-        return {0: Loop(inv, label='blocks', match=('for item in sorted', 'for item in map', 'for item in data', 'for item in (', 'for k, v in'))}
+        return {0: Loop(inv, label='blocks', match=('for item in sorted', 'for item in map', 'for item in data', 'for item in (', 'for k, v in', 'for (k, v) in', 'in data.items()'))}
 
     def ensures(self, cx, S, result):
         b1, b2 = S.bufs[1], S.bufs[2]
